@@ -236,6 +236,8 @@ class CoercerMethod(DeserializationMethod):
     method: DeserializationMethod
 
     def deserialize(self, data: Any) -> Any:
+        if isinstance(data, Discriminated):  # already checked by DiscriminatorMethod
+            return self.method.deserialize(data)
         return self.method.deserialize(self.coercer(self.cls, data))
 
 
